@@ -128,7 +128,10 @@ class ConstEval:
                     # a table built by a loop over a constant sequence (`for group in (...): table.update(dict.fromkeys(group, group))`)
                     stored = {n.id for n in ast.walk(st) if isinstance(n, ast.Name) and isinstance(n.ctx, ast.Store)} | \
                         {c.func.value.id for c in ast.walk(st) if isinstance(c, ast.Call) and isinstance(c.func, ast.Attribute) and
-                         isinstance(c.func.value, ast.Name) and c.func.attr in _MUTATING}
+                         isinstance(c.func.value, ast.Name) and c.func.attr in _MUTATING} | \
+                        {t.value.id for n in ast.walk(st) if isinstance(n, (ast.Assign, ast.AugAssign, ast.Delete))
+                         for t in (n.targets if isinstance(n, (ast.Assign, ast.Delete)) else [n.target])
+                         if isinstance(t, ast.Subscript) and isinstance(t.value, ast.Name)}
                     simple = not st.orelse and not any(isinstance(n, (ast.Break, ast.Continue, ast.If, ast.While, ast.Try, ast.With, ast.Return))
                                                        for b in st.body for n in ast.walk(b))
                     try:
